@@ -2520,6 +2520,7 @@ def check_element_index_kind(ck, tier):
 def check_gating_agreement(ck, facts_list):
     rule = "E7.term-gating-agreement"
     groups = {}     # coefficient set -> [(route key, flag name, predicate text, fn, line)]
+    dup_seen = set()
     for facts in facts_list:
         seen = set()
         for f in sorted(facts.functions, key=lambda f: f.full):
@@ -2568,10 +2569,31 @@ def check_gating_agreement(ck, facts_list):
                 if n.get("k") == "Un" and n.get("op") == "!":
                     return "!" + pred_norm(n.get("e"), depth + 1)
                 return G.resolve(n)
+            # an if / else-if chain whose conditions resolve to the same predicate has a dead branch (a sub-flag defined with
+            # the wrong mode literal: `need_diff_defo = need_diff && !deformation`)
+            for n in f.nodes():
+                if n.get("k") == "If" and n.get("c") is not None:
+                    chain, x = [], n
+                    while isinstance(x, dict) and x.get("k") == "If" and x.get("c") is not None:
+                        chain.append((pred_norm(x["c"]), x.get("l")))
+                        x = x.get("else")
+                        while isinstance(x, dict) and x.get("k") == "Block" and len(x.get("s") or []) == 1:
+                            x = x["s"][0]
+                    texts = [t for t, _ in chain]
+                    for t, l in chain[1:]:
+                        if texts.count(t) > 1 and re.search(r"[<>]", t) and (route, t) not in dup_seen:
+                            dup_seen.add((route, t))
+                            ck.ob(rule, "%s/else-if:%s" % (route, t[:60]), False, "the if / else-if chain ending at line %s tests the same predicate %s twice: the later branch can never be taken (both conditions resolve to the same definition)" % (l, t), f.file, l)
             for nm, init, line in defs:
                 txt = pred_norm(init)
                 if not re.search(r"[<>]", txt):
                     continue
+                # mode switches (bare bool operands of a conjunction: `need_diff && !deformation`) qualify a coefficient predicate,
+                # they are not part of it: the coefficient predicate is compared across the routes
+                if txt.startswith("(") and " && " in txt and " || " not in txt:
+                    parts = [q for q in txt[1:-1].split(" && ") if re.search(r"[<>]|==|!=", q)]
+                    if parts:
+                        txt = parts[0] if len(parts) == 1 else "(" + " && ".join(parts) + ")"
                 # members initialised by the same constructor (tol_eps) are replaced by their initialiser, one level
                 for m2, i2 in minit.items():
                     if m2 != nm and re.search(r"(?<![\w.])%s(?![\w(])" % re.escape(m2), txt):
